@@ -923,6 +923,8 @@ package netty
 //@ assume iface Channel.SetAttachment
 //@ assume iface Pipeline.AddFirst
 //@   ensures_assumed result != nil
+//@ assume iface Pipeline.AddLast
+//@   ensures_assumed result != nil
 //@ assume iface Pipeline.ServeChannel
 //@   modifies all
 //@   preserves bootstrap.*, bootstrapOptions.*, listener.*, transport.Options.*
